@@ -101,6 +101,10 @@ def sample_hdi(sample: ndarray, fraction: float) -> ndarray:
     if n_samples > L:
         # find the optimal single HDI
         widths = s[L:, :] - s[: n_samples - L, :]
+        if widths.dtype == int64:
+            # the sample is sorted, so a width is never negative: read as unsigned, an
+            # int64 difference that wrapped around (sample spanning 2**63 or more) is exact
+            widths = widths.view("uint64")
         i = expand_dims(widths.argmin(axis=0), axis=0)
         hdi[0, :] = take_along_axis(s, i, 0).squeeze()
         hdi[1, :] = take_along_axis(s, i + L, 0).squeeze()
